@@ -2,6 +2,7 @@ import ColoVerif.Model.Spread
 import ColoVerif.Model.Freespace
 import Driver.Common
 import Driver.CircuitIO
+import ColoVerif.Driver.GlobalLoopIO
 /-
 Driver for C06.  Floats travel as exact dyadics `mantissa exp2`; rationals are printed `num/den`.
 
@@ -14,6 +15,8 @@ Driver for C06.  Floats travel as exact dyadics `mantissa exp2`; rationals are p
   circuit … end  (circuit block)                        -> (nothing)
   grid <sizeFactor m e> <sideMargin m e>                -> grid minX maxX minY maxY | limX… | limY…
                                                            (factors chosen so that the float products are exact)
+  gparams / gshape / gdrift / ginit / gstep / gexit / gend   the control loop of GlobalPlacer::run
+                                                           (`ColoVerif/Driver/GlobalLoopIO.lean`, model `GlobalLoop.run`)
 -/
 open ColoVerif ColoVerif.Spread Driver
 
@@ -147,4 +150,16 @@ def step (c : Circuit) (ws : List String) : Circuit × List String :=
     | some c' => (c', [])
     | none => (c, ["bad-op " ++ " ".intercalate ws])
 
-def main : IO Unit := Driver.run step ⟨[], [], []⟩
+/-- driver state: the current circuit and the log of the global placement loop -/
+structure DrvSt where
+  circ : Circuit
+  gl : Driver.GL.Log
+
+def stepAll (s : DrvSt) (ws : List String) : DrvSt × List String :=
+  match Driver.GL.step s.gl ws with
+  | some (gl, outs) => ({ s with gl := gl }, outs)
+  | none =>
+    let (c, outs) := step s.circ ws
+    ({ s with circ := c }, outs)
+
+def main : IO Unit := Driver.run stepAll ⟨⟨[], [], []⟩, {}⟩
